@@ -145,7 +145,7 @@ def run_check(prop, tier, seed, replay, t0):
     plan = plans.PLANS[prop]
     known = load_known()
     attr = plan["attr"]
-    work = run.fresh_dir("%s/out/%s_%s" % (VERIF, prop, tier))
+    work = run.fresh_dir("%s/%s_%s" % (run.OUT, prop, tier))
     exe = run.build_harness("checked")
     cov = {"states": 0, "transitions": 0, "traces_validated_against_impl": 0, "evaluations": 0,
            "samples": [], "mc": [], "workloads": [], "spec_drift": 0, "out_of_scope": 0, "branch_tally": {},
@@ -265,10 +265,10 @@ def run_check(prop, tier, seed, replay, t0):
     rc = 0
     if ntool:
         rc = 2
-    os.makedirs(VERIF + "/out/replays", exist_ok=True)
+    os.makedirs(run.OUT + "/replays", exist_ok=True)
     seen = set()
     for v, sp, bname in all_viol:
-        dst = "%s/out/replays/%s_%s_%s_%s" % (VERIF, prop, tier, bname, os.path.basename(sp))
+        dst = "%s/replays/%s_%s_%s_%s" % (run.OUT, prop, tier, bname, os.path.basename(sp))
         if dst not in seen:
             shutil.copy(sp, dst)
             seen.add(dst)
@@ -281,7 +281,7 @@ def run_check(prop, tier, seed, replay, t0):
         cov["transitions"] = max(cov["transitions"], 1)
     if not cov["samples"]:
         cov["samples"] = [{"note": "no workload ran"}]
-    if not replay:
+    if not replay and not os.environ.get("ABY_NOEVIDENCE"):
         write_evidence(prop, tier, seed, cov, time.time() - t0, len(all_viol), plan.get("assumptions", []))
     log("[done] property=%s tier=%s rc=%d wall=%.1fs events=%d histories=%d drift=%d" % (
         prop, tier, rc, time.time() - t0, cov["evaluations"], cov["traces_validated_against_impl"], cov["spec_drift"]))
